@@ -810,8 +810,8 @@ corrupted record: VERIF_C16_CORRUPT=1 rewrites one field of one recorded Names e
 
 unchanged tree: held (exit 0, KNOWN-FINDING lines only) with VERIF_SEED = default, 11 and 977.
 
-candidate patches tried with VERIF_SRC=/tmp/wt-c16fix: hooks/fix-C16-link-names-independent-of-idlen.diff makes all shipped-route
-  runs conform (0 of 66 bad; the finding `library-global-names-depend-on-idlen` disappears); hooks/fix-C16-split-part-file-names.diff
+candidate patches tried with VERIF_SRC=/tmp/wt-c16fix: hooks/candidate-C16-link-names-independent-of-idlen.diff makes all shipped-route
+  runs conform (0 of 66 bad; the finding `library-global-names-depend-on-idlen` disappears); hooks/candidate-C16-split-part-file-names.diff
   makes the scenario `unit-names-sharing-5-characters-split` conform.  With the first patch -Cidlen=0 no longer spells globals in
   full, so CNames!MangleH reports spelling drift (150 items) and the crafted-pair probe finds no frame: if that patch is applied,
   MangleH must get the same cap (the export-call scope of TraceCNames keeps detecting duplicate link names without it).
